@@ -170,7 +170,7 @@ theorem sorted_erase {k : Id} {t : Table α} (hs : Sorted t) : Sorted (erase k t
     · simp only [erase, h1, if_false]
       exact sorted_cons.mpr ⟨fun kv hkv => hlt kv (mem_erase hkv), ih hst⟩
 
-private theorem sorted_set {k : Id} {o : Option α} {t : Table α} (hs : Sorted t) : Sorted (set k o t) := by
+theorem sorted_set {k : Id} {o : Option α} {t : Table α} (hs : Sorted t) : Sorted (set k o t) := by
   cases o with
   | none => exact sorted_erase hs
   | some v => exact sorted_upsert hs
